@@ -30,6 +30,11 @@ pub enum StorageError { FolderNotFound(VaultId) }
 /// impls are the `#[from]` variants its `?` sites use
 #[derive(Debug)]
 pub struct Error { pub _p: () }
+impl Error {
+    /// error.rs:28 tuple variant `VaultIdentifierMismatch(VaultId, VaultId)` (the error type is opaque here)
+    #[allow(non_snake_case)]
+    pub fn VaultIdentifierMismatch(_a: VaultId, _b: VaultId) -> Error { Error { _p: () } }
+}
 impl From<CoreError> for Error { fn from(_e: CoreError) -> Error { Error { _p: () } } }
 impl From<BackendError> for Error { fn from(_e: BackendError) -> Error { Error { _p: () } } }
 impl From<SyncError> for Error { fn from(_e: SyncError) -> Error { Error { _p: () } } }
@@ -70,6 +75,11 @@ pub open spec fn decs<E: Decodable>(p: Seq<Rec>) -> Seq<E> { Seq::new(p.len(), |
 #[verifier::external_body] pub struct VaultRest { _p: () }
 pub ghost struct VaultV { pub id: VaultId, pub name: Seq<char>, pub flags: VaultFlags, pub rest: VaultRest }
 impl View for Vault { type V = VaultV; uninterp spec fn view(&self) -> VaultV; }
+impl Vault {
+    /// vault.rs `Vault::id`: `self.header.summary.id`
+    #[verifier::external_body]
+    pub fn id(&self) -> (r: &VaultId) ensures *r == self@.id { unimplemented!() }
+}
 /// `decode::<Vault>(b)` (crates/vault/src/encoding): None when the bytes do not decode
 pub uninterp spec fn vault_dec(b: Seq<u8>) -> Option<VaultV>;
 /// `Vault::from(vault.header().clone())` (FolderReducer::split, crates/reducers/src/folder.rs:47):
